@@ -27,12 +27,12 @@ func register(p *Property) { properties[p.ID] = p }
 // Ref is the reference result of an RPC when nothing interferes: what the
 // handler script sends and returns (a boring model: read the script).
 type Ref struct {
-	Msgs     []string
-	Status   string // "nil" or "status:<Code>:..."; "ctx" when the handler returns its context's error
-	Code     string
-	HdrKeys  []string
-	TrlKeys  []string
-	NoResp   bool // unary handler returns (nil, nil)
+	Msgs    []string
+	Status  string // "nil" or "status:<Code>:..."; "ctx" when the handler returns its context's error
+	Code    string
+	HdrKeys []string
+	TrlKeys []string
+	NoResp  bool // unary handler returns (nil, nil)
 }
 
 func refOf(i int, rpc *RPC) Ref {
